@@ -49,7 +49,7 @@ _var = re.compile(r'^/\\ (\w+) = (.*)$')
 
 def spec_hash(model):
     h = hashlib.sha256()
-    for f in ("GrpcCall.tla", model + ".tla"):
+    for f in (model + ".tla",):   # behaviours are determined by the L1 module (L0 only judges them)
         h.update(open(os.path.join(vlib.VERIF, "spec", f), "rb").read())
     return h.hexdigest()[:16]
 
@@ -161,7 +161,7 @@ MODELS = {
         mc="MCInprocUnary", cls=cls_unary, depth=50,
         wanted={"spc", "cpc", "cctx", "chClosed", "ch", "decoded", "outcome", "gotResponse", "ev"},
         kinds=[(False, False)],
-        consts=lambda rq, rs: {"NH": 4, "MaxHdr": 2, "MaxTrl": 1, "Outcomes": '{"resp", "nilresp", "err"}',
+        consts=lambda rq, rs: {"NH": 4, "MaxHdr": 2, "MaxTrl": 1, "Outcomes": '{"resp", "nilresp", "err", "resperr"}',
                                "CancelKinds": '{"cancel", "deadline"}', "FixClosed": "TRUE", "FixDecode": "TRUE",
                                "Known <-": "KnownOpen"}),
 }
@@ -190,7 +190,7 @@ GRAPH_CONSTS = {
     "InprocStream": lambda rq, rs: {"ReqStreamC": bgen.tla_bool(rq), "RespStreamC": bgen.tla_bool(rs), "NS": 1, "NR": 2,
                                     "NH": 3, "MaxCancel": 1, "CancelKinds": '{"cancel"}', "Cap": 1, "MaxHdr": 1,
                                     "MaxTrl": 1, "Statuses": "{0, 1}", "Closers": '{"cs"}', "Known <-": "KnownOpen"},
-    "InprocUnary": lambda rq, rs: {"NH": 3, "MaxHdr": 1, "MaxTrl": 1, "Outcomes": '{"resp", "nilresp", "err"}',
+    "InprocUnary": lambda rq, rs: {"NH": 3, "MaxHdr": 1, "MaxTrl": 1, "Outcomes": '{"resp", "nilresp", "err", "resperr"}',
                                    "CancelKinds": '{"cancel"}', "FixClosed": "TRUE", "FixDecode": "TRUE",
                                    "Known <-": "KnownOpen"},
 }
